@@ -116,7 +116,7 @@ class World:
 
 
 _CLS = {"anti": {"AntiSymmetricTensor", "SymbolicTensor"}, "nonsym": {"NonSymmetricTensor", "SymbolicTensor"},
-        "delta": {"KroneckerDelta"}, "pref": {"Number"}}
+        "delta": {"KroneckerDelta"}, "pref": {"Number"}, "symbol": {"Symbol"}}
 
 
 def tspec(target, pattern, objs=(("A", "anti", "", ""),)):
@@ -136,9 +136,13 @@ def build_terms(w, specs, prefix="t", sids=None):
             base.attrs.update(_classes=set(_CLS[cl]), upper=w.tup(up), lower=w.tup(lo), name=descr, idx=w.tup(up + lo))
             o = Obj("expr_container:Obj", f"{prefix}{k}.o{n}")
             o.attrs.update(_descr=descr, base=base, idx=w.tup(up + lo), term=t, exponent=1, name=descr,
-                           type_as_str={"anti": "antisymtensor", "nonsym": "nonsymtensor", "delta": "delta", "pref": "prefactor"}[cl])
+                           type_as_str={"anti": "antisymtensor", "nonsym": "nonsymtensor", "delta": "delta", "pref": "prefactor", "symbol": "symbol"}[cl])
             objs.append(o)
+        names = [i for d in sp["pattern"].values() for i in d]
         t.attrs.update(target=w.tup(sp["target"]), objects=tuple(objs), sympy=w.content(f"{prefix}{k}"),
+                       # the indices the term holds are those its pattern speaks about (none: a number / symbols)
+                       idx=w.tup(names), contracted=w.tup([i for i in names if i not in sp["target"]]),
+                       provided_target_idx=w.tup(sp["target"]), _n=max(1, len(objs)),
                        _pattern={(s, ""): {w.idx(i): list(p) for i, p in d.items()} for s, d in sp["pattern"].items()})
         out.append(t)
     return out
@@ -244,6 +248,8 @@ def candidates(sp_i, sp_j):
     contracted onto contracted indices and a target index only onto itself."""
     tgt = set(sp_i["target"])
     per_space = []
+    if not any(sp_i["pattern"].values()) or not any(sp_j["pattern"].values()):
+        return set()        # no index to rename: such terms are equal or not, sympy has merged the equal ones
     for s, pi in sp_i["pattern"].items():
         pj = sp_j["pattern"].get(s)
         if pj is None or len(pj) != len(pi):
@@ -540,6 +546,11 @@ def fct_scenarios(tier):
         "prefactors do not count": [
             tspec("", P(occ={"i": ["p"]}), [("prefactor", "pref", "", ""), A]), tspec("", P(occ={"j": ["p"]}), [A])],
     }
+    NUM, SYM = ("prefactor", "pref", "", ""), ("symbol", "symbol", "", "")
+    sc["number and symbol next to two alike terms"] = [
+        tspec("", {}, [NUM]), tspec("", P(occ={"i": ["p"]})), tspec("", {}, [NUM, SYM]), tspec("", P(occ={"j": ["p"]}))]
+    sc["two different products of symbols"] = [tspec("", {}, [SYM]), tspec("", {}, [SYM, SYM]), tspec("", {}, [NUM, SYM])]
+    sc["only a number"] = [tspec("", {}, [NUM])]
     sc["target index that one term does not hold"] = [
         tspec("ij", P(occ={"i": ["p"], "k": ["q"]})), tspec("ij", P(occ={"i": ["p"], "j": ["q"]}))]
     # larger tables, evaluated for substitutions that do not annihilate the term (the zero test is exercised above)
@@ -678,6 +689,9 @@ def r07c_simplify(ctx):
                                ("expanded expression, two classes", 0, mixed),
                                ("single product that expands to two terms", 1, two[:1] + [tspec("", P(occ={"k": ["p"], "l": ["p"]}))]),
                                ("sum of two products that expands to three terms", 2, three),
+                               ("number, symbol and two alike terms", 0, [tspec("", {}, [("prefactor", "pref", "", "")]), three[0],
+                                                                         tspec("", {}, [("symbol", "symbol", "", "")]), three[1]]),
+                               ("product that expands to a number and a term", 1, [tspec("", {}, [("prefactor", "pref", "", "")]), three[0]]),
                                ("single term", 0, three[:1]),
                                ("single product that expands to one term", 1, three[:1])):
         probe = Probe()
